@@ -207,7 +207,7 @@ def run(tier, r):
     stats = {"exhaustive_configs": [], "dims": {}, "nm_hist": {}, "x_cases": 0, "y_cases": 0, "n1_cases": 0,
              "y_on_face_or_near": 0}
     explored = nontriv = 0
-    cfgs = sorted([(n, m) for n in (2, 3, 4, 5) for m in range(1, 26) if n * m <= lim], key=lambda c: c[0] * c[1])
+    cfgs = sorted([(n, m) for n in (2, 3, 4, 5, 6, 7) for m in range(1, 26) if n * m <= lim], key=lambda c: c[0] * c[1])
     for n, m in cfgs:
         if bud.over(0.8):
             stats.setdefault("exhaustive_skipped_for_time", []).append([n, m])
